@@ -8,7 +8,7 @@ import (
 
 var (
 	header            = `^\[([\da-f]{5,12})\]\s(.*?)\s(\d{4}-\d{2}-\d{2})\s(.*)$`
-	changes           = `([\d-]+)[\t\s]+([\d-]+)[\t\s]+(.*)`
+	changes           = `^([\d-]+)[\t\s]+([\d-]+)[\t\s]+(.*)$`
 	complexMoveRegStr = `(.*)\{(.*)\s=>\s(.*)\}(.*)`
 	basicMoveRegStr   = `(.*)\s=>\s(.*)`
 	changeModel       = `\s(\w{1,6})\s(mode 100(\d){3})?\s?(.*)(\s\(\d{2}%\))?`
